@@ -57,6 +57,12 @@ Section Skel.
                  | (Raise e', log'') => (Raise e', log'')
                  end
                end.
+  (* try: body  except X as e: raise Y(...) from e  - an exception of class X raised in the body is replaced by Y *)
+  Definition try_map {A} (body : M A) (exc new_exc : string) : M A :=
+    fun log => match body log with
+               | (Raise e, log') => if String.eqb e exc then (Raise new_exc, log') else (Raise e, log')
+               | r => r
+               end.
   (* for i in xs: body ; the body returns the new state and whether it executed [break] *)
   Fixpoint for_break {S : Type} (body : S -> Z -> M (S * bool)) (xs : list Z) (s : S) : M S :=
     match xs with
@@ -74,6 +80,7 @@ Arguments mbind {V A B} _ _ _.
 Arguments call {V} _ _ _ _.
 Arguments need_int {V} _ _.
 Arguments try_reraise {V A} _ _ _.
+Arguments try_map {V A} _ _ _ _.
 Arguments for_break {V S} _ _ _.
 
 Notation "x <<- m ;; k" := (mbind m (fun x => k))
